@@ -271,9 +271,11 @@ class AffineDomain(Domain):
                     gv = s.d.get(("v", "ghost:" + g)) or Aff.const(0)
                     s.d[("v", "ghost:" + g)] = gv + (new - old).scale(sign)
             facts = [k[1] for k in s.d if k[0] == "ge"]
+            nonneg = [v for k, v in s.d.items() if k[0] == "v" and isinstance(v, Aff) and not str(k[1]).startswith("ghost:bal")]
             self.log["stores"].append({"root": self.root.name, "loc": lc, "op": op, "old": old, "new": new,
                                        "val": val, "where": where, "facts": facts, "node": node,
-                                       "func": flow.cur_func().name})
+                                       "func": flow.cur_func().name, "nonneg": nonneg,
+                                       "vals": {k[1]: v for k, v in s.d.items() if k[0] == "v"}})
             s.d[("v", lc)] = new
         return [s]
 
@@ -377,16 +379,20 @@ class AffineDomain(Domain):
             keys.append(k[1])
         return sorted(keys, key=str)
 
-    def at_loop_head(self, flow, s, hv, tag, names):
+    def at_loop_head(self, flow, s, hv, tag, info):
         """Called for each configuration arriving at a loop head (entry or back edge)."""
+        names = info["names"]
+        keep = self.keep_at_head(flow, s)
         vars_ = self.loop_vars(flow, s, hv)
         forms = [s.d[("v", k)] for k in vars_]
-        self.log["arrivals"].setdefault(tag, []).append((vars_, forms))
+        self.log["arrivals"].setdefault(tag, []).append((vars_, forms, info["entry"]))
         cand = self.inv.get(tag)
         # havoc: every variable assigned in the loop (locals in hv, tracked memory, ghosts) gets a fresh atom,
         # then the candidate equalities are imposed by elimination
         fresh = {}
         for k in vars_:
+            if k in keep:
+                continue
             is_local = k.startswith("0x")
             if (is_local and k in hv) or (not is_local and (k.startswith("ghost:") or self.tracked.search(k))):
                 nm = names.get(k, k) if is_local else k
@@ -425,43 +431,90 @@ class AffineDomain(Domain):
                 s.d[("v", k)] = f
         s._k = None
 
+    def keep_at_head(self, flow, s):
+        """Tracked keys whose value is pinned by a typestate fact and must not be havoc'd at loop heads."""
+        return ()
+
     def at_return(self, flow, s, node, value):
         self.log["returns"].append({"root": self.root.name, "where": self.m.rel(loc(node)) if node else
                                     self.m.rel(self.root.where), "value": value, "state": s,
                                     "facts": [k for k in s.d if k[0] in ("ge", "eq")]})
 
 
-def analyse(model, func, spec, max_rounds=6):
-    """Houdini loop over candidate loop invariants; returns the log of the final, stable run."""
+def analyse(model, func, spec, max_rounds=10, domain_cls=None, extra_log=None):
+    """Houdini-style inference of loop-head equalities, then the final run's log.
+
+    Each round assumes the current candidate space A(tag) at every loop head.  The next candidates are
+    N(tag) = {equalities holding at every *entry* arrival} restricted to those that also hold at every
+    *back-edge* arrival (whose forms were computed under A).  A round with N == A is a proof that A holds
+    on entry and is preserved by every path around the loop, i.e. A is inductive; only then are the
+    obligations of that run reported."""
+    domain_cls = domain_cls or AffineDomain
     may_yield = model.reaches({"cmi_coroutine_transfer"})
-    inv = {}
-    log = None
-    for rnd in range(max_rounds):
+
+    def run_once(assumed, rnd):
         log = {"stores": [], "arrivals": {}, "returns": [], "yields": [], "round": rnd, "invariants": {}}
-        dom = AffineDomain(model, func, spec, inv, may_yield, log)
+        for k, v in (extra_log or {}).items():
+            log[k] = type(v)()
+        dom = domain_cls(model, func, spec, assumed, may_yield, log)
         s0 = State()
         for k, v in spec.get("init", {}).items():
             s0.d[("v", k)] = v
+        for p_ in func.params:
+            t = p_.get("type") or ""
+            if "int" in t and "*" not in t:
+                s0.d[("v", p_["id"])] = Aff.atom(p_["name"])     # parameters take part in loop-head equalities
         Flow(model, func, dom).run(s0)
-        new_inv = {}
+        return log
+
+    def normalise(arr):
+        vars0 = arr[0][0]
+        if any(a[0] != vars0 for a in arr):
+            common = [v for v in vars0 if all(v in a[0] for a in arr)]
+            arr = [(common, [fm for v, fm in zip(a[0], a[1]) if v in common], a[2]) for a in arr]
+            vars0 = common
+        return vars0, arr
+
+    def entry_equalities(arr):
+        entries = [a for a in arr if a[2]]
+        if not entries:
+            return []
+        basis = equalities_holding(entries[0][1])
+        for vs, forms, _ in entries[1:]:
+            basis = restrict(basis, forms)
+        return basis
+
+    # phase 1: candidate generation (optimistic) - equalities that hold on entry, assuming the entry
+    # equalities of the enclosing loops; no back-edge test yet
+    cand = {}
+    rnd = 0
+    for rnd in range(5):
+        log = run_once(cand, rnd)
+        new = {}
         for tag, arr in log["arrivals"].items():
-            vars0 = arr[0][0]
-            if any(a[0] != vars0 for a in arr):
-                # different variable sets on different arrivals: keep only the common ones is not sound
-                # for elimination; give up on invariants for this loop (obligations may then fail)
-                new_inv[tag] = {"vars": vars0, "basis": []}
-                continue
+            vars0, arr = normalise(arr)
+            new[tag] = {"vars": vars0, "basis": entry_equalities(arr)}
+        same = set(new) == set(cand) and all(_same_space(cand[t], new[t]) for t in new)
+        cand = new
+        if same:
+            break
+    # phase 2: Houdini weakening - assume A, keep what holds at every arrival (entry and back edge); A only
+    # shrinks, and a round with N == A proves A inductive (holds on entry, preserved around the loop)
+    inv = cand
+    for rnd2 in range(max_rounds):
+        log = run_once(inv, rnd + 1 + rnd2)
+        new = {}
+        for tag, arr in log["arrivals"].items():
+            vars0, arr = normalise(arr)
             if tag in inv and inv[tag]["vars"] == vars0:
-                # candidates were assumed at the head in this run: keep those that hold at every arrival
                 basis = inv[tag]["basis"]
-                for vs, forms in arr:
+                for vs, forms, _ in arr:
                     basis = restrict(basis, forms)
             else:
-                # first (optimistic) round: everything that holds on entry is a candidate
-                basis = equalities_holding(arr[0][1])
-            new_inv[tag] = {"vars": vars0, "basis": basis}
-        stable = all(tag in inv and _same_space(inv[tag], new_inv[tag]) for tag in new_inv)
-        inv = new_inv
+                basis = []
+            new[tag] = {"vars": vars0, "basis": basis}
+        stable = set(new) == set(inv) and all(_same_space(inv[t], new[t]) for t in new)
+        inv = new
         if stable:
             break
     else:
@@ -470,9 +523,58 @@ def analyse(model, func, spec, max_rounds=6):
     return log
 
 
+def _intersect(a, b, n):
+    """Intersection of the spaces spanned by bases a and b (vectors of length n)."""
+    if not a or not b:
+        return []
+    # x = sum la_i a_i = sum lb_j b_j  ->  [A^T | -B^T] (la, lb) = 0
+    rows = []
+    for c in range(n):
+        rows.append([v[c] for v in a] + [-v[c] for v in b])
+    ns = nullspace(rows, len(a) + len(b))
+    out = []
+    for v in ns:
+        la = v[:len(a)]
+        out.append([sum(la[i] * a[i][c] for i in range(len(a))) for c in range(n)])
+    # drop zero vectors / dependent ones
+    res = []
+    for v in out:
+        if any(x != 0 for x in v):
+            res.append(v)
+    return _reduce(res, n)
+
+
+def _reduce(vs, n):
+    """Row-reduce to an independent basis."""
+    m = [list(v) for v in vs]
+    basis = []
+    r = 0
+    for c in range(n):
+        p = None
+        for i in range(r, len(m)):
+            if m[i][c] != 0:
+                p = i
+                break
+        if p is None:
+            continue
+        m[r], m[p] = m[p], m[r]
+        pv = m[r][c]
+        m[r] = [x / pv for x in m[r]]
+        for i in range(len(m)):
+            if i != r and m[i][c] != 0:
+                f = m[i][c]
+                m[i] = [a_ - f * b_ for a_, b_ in zip(m[i], m[r])]
+        r += 1
+        if r == len(m):
+            break
+    return [v for v in m[:r]]
+
+
 def _same_space(a, b):
-    # b is obtained from a by restriction, so equal dimension means equal space
-    return a["vars"] == b["vars"] and len(a["basis"]) == len(b["basis"])
+    if a["vars"] != b["vars"] or len(a["basis"]) != len(b["basis"]):
+        return False
+    n = len(a["vars"]) + 1
+    return len(_intersect(a["basis"], b["basis"], n)) == len(a["basis"])
 
 
 def show_invariants(inv, names):
